@@ -114,7 +114,10 @@ prop("C13", modules=["version"],
      split={MFN + "__init__": 14},
      functions=[MFN + "__init__", MFN + "_update_dependencies", MFN + "_update_fn_reference", MFN + "version", MFN + "fn_reference", MFN + "hash_rules", MFN + "increment_global_fn_generation",
                 "code_hash:UndefinedSymbolHashRule.did_change", "code_hash:MementoFunctionHashRule.did_change", "code_hash:GlobalVariableHashRule.did_change",
-                "code_hash:NonMementoFunctionHashRule.did_change"],
+                "code_hash:NonMementoFunctionHashRule.did_change",
+                # "defining a previously undefined symbol": the rule left for a name that does not resolve watches exactly where the name will appear
+                "code_hash:HashRule._visit_dependency"],
+     function_modules={"code_hash:HashRule._visit_dependency": ["traversal"]},
      design_ref="DESIGN.md section 6, C13",
      trusted=["coherence lemma over the per-call contracts under environment assumption E (DESIGN section 6, C13): every in-process event that changes the from-scratch version is a registration or makes a collected rule report change",
               "_recompute_version returns the from-scratch version (assumed contract)"],
@@ -124,11 +127,17 @@ prop("C14", modules=["deps"],
      functions=[MFN + "_validate_dependency", MFN + "call", MFN + "call_batch",
                 "dependency_graph:DependencyGraph.transitive_memento_fn_dependencies", "dependency_graph:DependencyGraph.direct_memento_fn_dependencies",
                 # the scope of the collection ("plain helper functions of the same package"): the package_scope handed to collect_transitive_dependencies
-                MFN + "_recompute_version"],
-     function_modules={MFN + "_recompute_version": ["codehash"]},
+                MFN + "_recompute_version",
+                # the traversal itself: which names are visited from which function, what is recorded for a name that does or does not resolve
+                "code_hash:HashRule._visit_dependency", "code_hash:MementoFunctionHashRule.collect_transitive_dependencies",
+                "code_hash:NonMementoFunctionHashRule.collect_transitive_dependencies"],
+     function_modules={MFN + "_recompute_version": ["codehash"], "code_hash:HashRule._visit_dependency": ["traversal"],
+                       "code_hash:MementoFunctionHashRule.collect_transitive_dependencies": ["traversal"],
+                       "code_hash:NonMementoFunctionHashRule.collect_transitive_dependencies": ["traversal"]},
+     split={"code_hash:MementoFunctionHashRule.collect_transitive_dependencies": 5},
      design_ref="DESIGN.md section 6, C14",
      trusted=["_extract_fn_ref_args (recursive walk over argument structures) is summarised by in_fnref_names (assumed)",
-              "exactness of the collected rule list w.r.t. the program's reference graph (list_dotted_names / collect_transitive_dependencies) is NOT claimed: AST visitor and dynamic resolution are outside the verifier's subset"],
+              "the AST visitor list_dotted_names and the strategy loop resolve_symbol / try_resolve are summarised by uninterpreted functions (dotted_names, resolvable, is_rule_for): exactness of the collected rule list w.r.t. the program TEXT is claimed only from these summaries downwards (which names are visited from which function, what a resolved / unresolved name leaves in the result set)"],
      assumptions=["x.fn_reference().qualified_name is a function of the memento function object within one call (qname_of)"])
 
 prop("C12", modules=["names"],
@@ -189,7 +198,10 @@ prop("C01", modules=["codehash"],
 prop("C03", modules=["codehash"],
      functions=["code_hash:_stable_repr", "code_hash:fn_code_hash.<locals>.hash_if_code_object", "memento:MementoFunction._recompute_version"]
      + ["code_hash:%s.__init__" % k for k in ("NonMementoFunctionHashRule", "MementoFunctionHashRule", "GlobalVariableHashRule", "UndefinedSymbolHashRule")]
-     + ["code_hash:HashRule.__eq__", "code_hash:HashRule.__lt__", "code_hash:HashRule.__hash__"],
+     + ["code_hash:HashRule.__eq__", "code_hash:HashRule.__lt__", "code_hash:HashRule.__hash__"]
+     # "regardless of definition or import order": a name that does not resolve yet leaves a rule that watches the place where it will appear
+     + ["code_hash:HashRule._visit_dependency"],
+     function_modules={"code_hash:HashRule._visit_dependency": ["traversal"]},
      extra_checks=["contracts.extra:env_salt"],
      design_ref="DESIGN.md section 6, C03",
      trusted=["value table of seed-independent repr(); 'sorting removes iteration order' (bag lemma); seed independence is checked on value terms by substituting a second seed"],
